@@ -274,8 +274,13 @@ def n3(ctx, rep):
         rec = [c for c in a['calls'] if c.get('f') == 'check_type']
         rep.check(len(rec) >= len(payload), 'N3', key, f'{len(rec)} recursive call(s) for {len(payload)} payload type(s)', f"reconcile::check_type recurses {len(rec)} time(s) into SpecialRustType::{var['name']} which carries {len(payload)} type payload(s)", site)
     # every type-bearing field of every item kind is passed to check_type
-    ra = ctx.fn('reconcile_aliases', file='reconcile.rs')
+    ra = ctx.fnx('reconcile_aliases', file='reconcile.rs')
     cv = ctx.fn('check_variant', file='reconcile.rs')
+    # the rewriter runs for every crate and every item: only loops may enclose it, never a condition
+    for c in ra['calls']:
+        if c.get('f') in ('check_type', 'check_variant'):
+            conds = [fr for fr in c['guard'] if fr.get('k') == 'if']   # arms over RustEnum are the dispatch, not a condition
+            rep.check(not conds, 'N3', f"reconcile_aliases:{c['f']}:unconditional:{vt.show(c['args'][-1])[-24:] if c.get('args') else ''}", 'applied to every crate/item', f"reconcile_aliases applies {c['f']} only under `{('!' if conds and conds[0].get('neg') else '') + (vt.show(conds[0].get('c'))[:80] if conds else '')}`: references in the crates/items excluded by that test keep the original name of a serde(rename)d type while its definition is renamed (e.g. a crate that imports a renamed type but renames nothing itself)", {'file': ra['file'], 'line': c.get('line')})
     texts = [json.dumps(c.get('args', [])) for c in ra['calls'] + cv['calls'] if c.get('f') == 'check_type']
     needed = {'struct fields': '"structs"', 'alias targets': '"aliases"', 'const types': '"consts"'}
     for what, needle in needed.items():
